@@ -76,9 +76,9 @@ TDereg == \/ Logged("Dereg", WDereg)
 
 \* ---- main
 TTick == Logged("Tick", MTick)
-\* ok = FALSE: the directory vanished meanwhile, or the registration failed transiently
-TReg == \/ IsEv("Reg") /\ Consume /\ MReg /\ Ev.ok = (dirGen # 0) /\ UNCHANGED <<kpend, kok>>
-        \/ IsEv("Reg") /\ Consume /\ ~Ev.ok /\ MRegFail /\ UNCHANGED <<kpend, kok>>
+\* the hook point reports the registration after the fact: the kernel-side step (MReg / MRegFail) is internal
+TReg == \/ IsEv("Reg") /\ Consume /\ Ev.ok /\ MRegDone /\ UNCHANGED <<kpend, kok>>
+        \/ IsEv("Reg") /\ Consume /\ ~Ev.ok /\ MRegGiveUp /\ UNCHANGED <<kpend, kok>>
 TSchedM == /\ IsEv("Sched") /\ Ev.thr = "m" /\ Consume /\ UNCHANGED <<kpend, kok>>
            /\ MScanSched /\ Head(mscan) = Ev.tag
            /\ SchedFor(Head(mscan), mcontent) = <<[tag |-> Ev.tag, unit |-> IF Ev.add THEN Rec("valid", Ev.v) ELSE None]>>
@@ -109,7 +109,7 @@ TraceNext ==
   \/ TWLocked \/ TWEvent \/ TSchedW \/ TSchedWNone \/ TDereg
   \/ Silent(WWake) \/ Silent(WRead) \/ Silent(WReadFile) \/ Silent(WUnlock) \/ Silent(WSetDeleted)
   \/ TTick \/ TReg \/ TSchedM \/ TSchedMNone \/ TScanDone \/ TCtorDone \/ TSwap \/ TApply \/ TActive
-  \/ Silent(MCheck) \/ Silent(MPrep) \/ Silent(MList) \/ Silent(MScanRead)
+  \/ Silent(MCheck) \/ Silent(MPrep) \/ Silent(MReg) \/ Silent(MRegFail) \/ Silent(MList) \/ Silent(MScanRead)
   \/ TQuiet \/ TSettle \/ TStop \/ TGone \/ Silent(WExit)
 TraceSpec == TraceInit /\ [][TraceNext]_tvars
 TraceProgress == TLCSet(1, IF TLCGet(1) < l THEN l ELSE TLCGet(1))
